@@ -50,6 +50,17 @@ class Interp:
                 return self.class_value(mod.classes[name])
             if name in mod.imports:
                 src, attr = mod.imports[name]
+                c = self.engine.registry.get(f'{mod.name}.{name}')
+                if c is not None and not (src or '').startswith('gnpy'):
+                    # a third-party function imported into this module, bound to an assumed contract by the sidecar
+                    eng = self.engine
+                    pnames = list(c.params.keys())
+
+                    def ext(it, a, k, c=c, pnames=pnames):
+                        vals = dict(zip(pnames, a))
+                        vals.update(k)
+                        return eng.apply_contract(it, c, vals)
+                    return Builtin(f'{mod.name}.{name}', ext)
                 return self.resolve_import(src, attr, name)
             if name in mod.consts:
                 key = (mod.name, name)
@@ -985,6 +996,8 @@ class Interp:
             raise Unsupported('iteration over an array of symbolic length (needs an invariant / vector form)')
         if hasattr(it, 'items_list'):
             return it.items_list(self)
+        if isinstance(it, Obj) and '__iter__' in it.fields:
+            return list(it.fields['__iter__'])      # ghost iteration order of a container object (networkx graph)
         raise Unsupported(f'iteration over {type(it).__name__}')
 
     def to_list(self, v):
